@@ -94,12 +94,17 @@ pub fn do_call(adf: &mut Adf, text: &str, c: &HCall) -> Vec<Vec<usize>> {
             }
             vec![]
         }
+        // the documented repair step is a public call like any other: on a live object it must change nothing
+        "repair" => {
+            adf.fix_import();
+            vec![]
+        }
         other => panic!("unknown call {}", other),
     }
 }
 
 pub fn rand_call(rng: &mut StdRng) -> HCall {
-    let kinds = ["grounded", "complete", "stable", "prefilter", "count_a", "count_b", "rew", "ng", "ng", "ng", "twoval", "formulacounts", "facet", "bddop", "bddop"];
+    let kinds = ["grounded", "complete", "stable", "prefilter", "count_a", "count_b", "rew", "ng", "ng", "ng", "twoval", "formulacounts", "facet", "bddop", "bddop", "repair"];
     let c = kinds[rng.gen_range(0..kinds.len())];
     let h = if c == "ng" || c == "twoval" {
         ["Simple", "MinModMinPathsMaxVarImp", "MinModMaxVarImpMinPaths", "Rand"][rng.gen_range(0..4)]
@@ -171,6 +176,8 @@ pub fn one_history(rng: &mut StdRng, id: String, out: &mut Vec<Value>, persist: 
         .collect();
     let persist_at = if persist { rng.gen_range(0..=len) } else { usize::MAX };
     let persist_how = if rng.gen_bool(0.5) { "serde" } else { "rebuild" };
+    crate::util::breadcrumb(&json!({"kind": "history", "id": id, "text": text, "src": backend.name(), "calls": calls.iter().map(call_json).collect::<Vec<_>>(),
+                                    "persist_at": if persist { persist_at as i64 } else { -1 }, "persist_how": persist_how}));
 
     // run the whole history on one object; used twice (determinism) - everything inside one guarded closure
     let run_hist = |text: String, calls: Vec<HCall>, with_tables: bool| {
